@@ -186,7 +186,7 @@ impl RK4 {
             steps.accepted += 1;
 
             // Decide if we must build dense output (for user xout events as well)
-            let event = xout.map_or(false, |xo| xo <= x);
+            let event = xout.map_or(false, |xo| (x - xo) * posneg >= 0.0);
             if (self.dense_output || event) && solout.is_some() {
                 cont[0..n].copy_from_slice(&yt);
                 for i in 0..n {
@@ -197,7 +197,7 @@ impl RK4 {
 
             // Optional callback function
             if let Some(sol) = solout.as_mut() {
-                let interpolant = if self.dense_output || xout.map_or(false, |xo| xo <= x) {
+                let interpolant = if self.dense_output || xout.map_or(false, |xo| (x - xo) * posneg >= 0.0) {
                     Some(StepInterpolant::new(&cont, xold, h, Self::interpolate))
                 } else {
                     None
